@@ -21,9 +21,6 @@ def main():
     patch = os.path.join(d, "patch.diff")
     demo = os.path.join(d, "demo_test.go")
     res = dict(prop=prop, dir=d, tier=tier)
-    rc, out = sh("git -C /repo status --porcelain")
-    if out.strip():
-        print("refusing: /repo is not clean"); return 2
     wt = tempfile.mkdtemp(prefix="muteval-")
     shutil.rmtree(wt)
     try:
@@ -44,19 +41,24 @@ def main():
             shutil.copy(demo, os.path.join(wt, "zz_seeded_demo_test.go"))
             rc, out = sh("go test %s -count=1 -run TestSeeded ." % race, cwd=wt)
             res["demo_with"] = "fail" if rc != 0 else "PASSES"
+            os.remove(os.path.join(wt, "zz_seeded_demo_test.go"))
+            # the checks, pointed at the patched scratch worktree (same as applying the patch to /repo,
+            # without disturbing /repo while other runs use it)
+            outdir = tempfile.mkdtemp(prefix="mutout-")
+            cenv = dict(ENV, VERIF_REPO=wt, VERIF_OUT=outdir)
+            for p in [prop] + extra:
+                pr = subprocess.run([os.path.join(VERIF, "bin", "check"), p, tier], cwd=VERIF, env=cenv,
+                                    capture_output=True, text=True, timeout=3600)
+                o = pr.stdout + pr.stderr
+                viol = [l for l in o.splitlines() if l.startswith("VIOLATION")]
+                devs = [l.strip() for l in o.splitlines() if l.strip().startswith("deviation=")]
+                res["check_" + p] = dict(rc=pr.returncode, violations=len(viol), devs=devs[:3],
+                                         tail=o.strip().splitlines()[-1][:160] if o.strip() else "")
+            shutil.rmtree(outdir, ignore_errors=True)
+            shutil.rmtree(os.path.join(VERIF, ".build", "alt-" + __import__("hashlib").sha1(wt.encode()).hexdigest()[:10]), ignore_errors=True)
     finally:
         sh("git -C /repo worktree remove --force %s" % wt)
         shutil.rmtree(wt, ignore_errors=True)
-    if res.get("applies"):
-        rc, out = sh("git -C /repo apply %s" % patch)
-        try:
-            for p in [prop] + extra:
-                rc, out = sh("%s/bin/check %s %s" % (VERIF, p, tier), cwd=VERIF)
-                viol = [l for l in out.splitlines() if l.startswith("VIOLATION")]
-                res["check_" + p] = dict(rc=rc, violations=viol[:3], tail=out.strip().splitlines()[-1][:200] if out.strip() else "")
-        finally:
-            sh("git -C /repo checkout -- .")
-            sh("git -C /repo clean -fdq")
     print(json.dumps(res))
     return 0
 
